@@ -32,8 +32,7 @@ def run(ev, vd):
         rc, o, dt = conc.run_harness(cbin("foreach_d") if fl == "C" else fbin("foreach_d"), [out, ev.seed * 1000 + k, tier(), mode], topo=topo,
                                      timeout=(900 if tier() == "thorough" else 300))
         return j, out, rc, o
-    with cf.ThreadPoolExecutor(max_workers=5) as ex:
-        results = list(ex.map(job, alljobs))
+    results = conc.pmap(job, alljobs, lambda j: j[1][0])
     tr = os.path.join(BUILD, "tmp", "fed_all.ndjson")
     trd = os.path.join(BUILD, "tmp", "fed_det.ndjson")
     nruns = 0
